@@ -477,6 +477,76 @@ def tie_kpm(ctx, ncases=None):
                 disagreements=dis[:20])
 
 
+def sylvester_kpm_problem(seed):
+    """Hermitian h0 with known eigenvectors; explicit blocks, and a random subset of the remaining
+    eigenvectors passed as solver_options["auxiliary_vectors"] (also with max_moments / eps)."""
+    rng = __import__("random").Random(seed)
+    rs = np.random.default_rng(seed)
+    cplx = rng.random() < 0.5
+    nb = rng.randint(1, 2)
+    sizes = [rng.randint(1, 2) for _ in range(nb)]
+    nexp = sum(sizes)
+    n = rng.randint(max(3, nexp + 1), 8)
+    V = np.linalg.qr(rand_c(rs, (n, n), cplx))[0]
+    bases = rng.sample([-3.0, -1.0, 1.0, 3.0], nb)
+    levels = []
+    for s_, b in zip(sizes, bases):
+        levels += [b] * s_ if rng.random() < 0.5 else [b + 0.5 * j for j in range(s_)]
+    D = np.array(levels + [6.0 + j for j in range(n - nexp)])
+    h0 = V @ np.diag(D) @ V.conj().T
+    h0 = (h0 + h0.conj().T) / 2
+    if not cplx:
+        h0 = h0.real
+    nB = n - nexp
+    naux = 0 if rng.random() < 0.25 else rng.randint(1, nB)
+    opts = dict(atol=1e-5)
+    aux = sorted(rng.sample(range(nB), naux))
+    if aux:
+        opts["auxiliary_vectors"] = np.ascontiguousarray(V[:, [nexp + a for a in aux]])
+    mm = rng.choice([None, None, 200000, 1e6])
+    if mm is not None:
+        opts["max_moments"] = mm
+    eps = rng.choice([None, None, 0.01, 0.05])
+    if eps is not None:
+        opts["eps"] = eps
+    return dict(n=n, cplx=cplx, sizes=sizes, levels=levels, V=V, h0=h0, opts=opts, aux=aux)
+
+
+def eval_sylvester_kpm(seed):
+    """solve_sylvester_KPM: E_a v - v h0 = y P  on the complement of the explicit vectors, within the
+    requested accuracy (unless the convergence warning was emitted), with and without auxiliary vectors."""
+    p = sylvester_kpm_problem(seed)
+    rs = np.random.default_rng(seed + 1)
+    n, sizes, V, h0 = p["n"], p["sizes"], p["V"], p["h0"]
+    nb, nexp = len(sizes), sum(sizes)
+    offs = np.cumsum([0] + sizes)
+    vecs = [V[:, offs[i]:offs[i + 1]] for i in range(nb)]
+    P = np.eye(n) - V[:, :nexp] @ V[:, :nexp].conj().T
+    fails = []
+    with warnings.catch_warnings(record=True) as w:
+        warnings.simplefilter("always")
+        try:
+            solve = impl_bd.solve_sylvester_KPM(sp.csr_array(h0), vecs, solver_options=dict(p["opts"]))
+        except Exception as e:
+            return ["solve_sylvester_KPM raised %s: %s" % (type(e).__name__, e)], p
+        for i in range(nb):
+            Ei = np.array(p["levels"][offs[i]:offs[i + 1]])
+            Y = rand_c(rs, (sizes[i], n), p["cplx"]) @ P
+            try:
+                Vs = np.asarray(solve(Y.copy(), (i, nb)))
+            except Exception as e:
+                fails.append("solve_sylvester_KPM index (%d, implicit) raised %s: %s" % (i, type(e).__name__, e))
+                continue
+            res = np.abs(Ei[:, None] * Vs - Vs @ h0 - Y).max()
+            res2 = np.abs(Vs @ P - Vs).max()
+            bound = 1e3 * p["opts"]["atol"] * (1 + np.abs(Y).max())
+            if not (res <= bound and res2 <= bound):
+                fails.append("solve_sylvester_KPM index (%d, implicit), auxiliary vectors %s: residual %.3g, |V P - V| = %.3g (bound %.3g)" % (i, p["aux"], res, res2, bound))
+    if any(issubclass(x.category, RuntimeWarning) and "did not converge" in str(x.message) for x in w):
+        fails = [f for f in fails if " raised " in f]
+    return fails, p
+
+
 def oracle_kpm(ctx, n=None):
     rng = ctx.rng
     n = n or ctx.n(40, 600)
@@ -499,7 +569,15 @@ def oracle_kpm(ctx, n=None):
         feats.add((warned, res <= atol, sp.issparse(h)))
         if not warned and not res <= atol:
             fails.append(dict(what="residual %.3g > atol %.3g without RuntimeWarning" % (res, atol), input=dict(oracle="kpm", h=enc(h.toarray() if sp.issparse(h) else h), energy=energy, vector=enc(vector), atol=atol, max_moments=mm)))
-    return dict(evaluations=n, nontrivial=len(feats), rule="distinct (warned, converged, sparse)", samples=[], failures=fails[:10])
+    # the hybrid Sylvester solver built on it, with explicit solver options
+    nsyl = ctx.n(25, 300)
+    for i in range(nsyl):
+        seed = rng.randrange(2**31)
+        fs, p = eval_sylvester_kpm(seed)
+        feats.add(("sylvester", tuple(p["sizes"]), len(p["aux"]) > 0, "max_moments" in p["opts"], "eps" in p["opts"], p["cplx"]))
+        for f in fs[:1]:
+            fails.append(dict(what=f, input=dict(oracle="kpm_sylvester", seed=seed)))
+    return dict(evaluations=n + nsyl, nontrivial=len(feats), rule="distinct (warned, converged, sparse) for greens_function; (block sizes, auxiliary_vectors?, max_moments?, eps?, complex) for solve_sylvester_KPM", samples=[], failures=fails[:10])
 
 
 # ---------------------------------------------------------------------------
@@ -639,6 +717,11 @@ def replay(inp):
         rs = np.random.default_rng(inp["seed"])
         sub = __import__("random").Random(inp["seed"])
         fs = eval_float_problem(float_problem(rs, sub, inp["nmax"]), rs)
+        for f in fs:
+            print("  still failing:", f)
+        return 1 if fs else 0
+    if inp.get("oracle") == "kpm_sylvester":
+        fs, _ = eval_sylvester_kpm(inp["seed"])
         for f in fs:
             print("  still failing:", f)
         return 1 if fs else 0
